@@ -1,4 +1,5 @@
-import EaModel.Properties.SchedCommon
+import EaModel.Properties.C01
+import EaModel.Lemmas.Quiet
 /-!
 # C02 — no unauthorised and no duplicate execution
 
@@ -95,5 +96,85 @@ theorem failed_creation_not_queued (s : St) (j : Nat) (key : Option Nat) (spec :
 -- non-vacuity (executable check): the second creation with id 7 fails and only the first job executes
 #guard ((runOps (initSt {} 0) [.create 1 (some 7) (.once 5) [] [], .create 2 (some 7) (.once 6) [] [],
     .sleep 10]).log.filterMap fun e => match e with | .exec j _ _ => some j | _ => none) == [1]
+
+
+/-- the entries an operation appended to the log -/
+def Appended (s s' : St) (l : List Ev) : Prop := s'.log = l ++ s.log
+
+/-- Only while it is running: in every reachable state, a job `i` that is not RUNNING — cancelled, paused,
+stopped, a finished one-shot, or a handle that was never created — is not executed by any operation (wake-ups,
+sleeps, re-enabling, operations on other jobs, its own cancel/pause/stop), and stays out of the queue, until
+its own `resume`, `reset` or creation. -/
+theorem not_running_never_executed (env : Env) (now : Int) (en : Bool) (ops : List Op) (i : Nat) (op : Op) :
+    let s := runOps (initSt env now en) ops
+    (s.job i).status ≠ .running → op.adds ≠ some i →
+    let s' := (step s op).1
+    (∃ l, Appended s s' l ∧ ∀ t due, Ev.exec i t due ∉ l) ∧ i ∉ s'.queue := by
+  intro s hs hop s'
+  have hI : Inv s := inv_reachable env now en ops
+  have hnq : i ∉ s.queue := fun hm => hs (hI.q.run i hm)
+  obtain ⟨⟨l, hl, hp⟩, hq⟩ := step_quiet_notQueued s op i hI hnq hop
+  refine ⟨⟨l, hl, ?_⟩, hq⟩
+  intro t due hm
+  exact hp _ hm rfl
+
+/-- the same over any number of further operations: as long as none of them is the job's own `resume`,
+`reset` or creation, no execution of the job is logged -/
+theorem not_running_never_executed_history (env : Env) (now : Int) (en : Bool) (ops more : List Op) (i : Nat) :
+    let s := runOps (initSt env now en) ops
+    (s.job i).status ≠ .running → (∀ op ∈ more, op.adds ≠ some i) →
+    let s' := runOps s more
+    ∃ l, Appended s s' l ∧ ∀ t due, Ev.exec i t due ∉ l := by
+  intro s hs hop
+  have hI : Inv s := inv_reachable env now en ops
+  have hnq : i ∉ s.queue := fun hm => hs (hI.q.run i hm)
+  suffices h : ∀ (more : List Op) (s : St), Inv s → i ∉ s.queue → (∀ op ∈ more, op.adds ≠ some i) →
+      Quiet (notExecOf i) s (runOps s more) by
+    obtain ⟨l, hl, hp⟩ := h more s hI hnq hop
+    exact ⟨l, hl, fun t due hm => hp _ hm rfl⟩
+  intro more
+  induction more with
+  | nil => intro s _ _ _; exact Quiet.refl _ s
+  | cons op more ih =>
+    intro s hI hnq hop
+    obtain ⟨q, p⟩ := step_quiet_notQueued s op i hI hnq (hop op (by simp))
+    exact q.trans (ih _ (step_inv s op hI) p (fun o ho => hop o (by simp [ho])))
+
+/-- While the scheduler is disabled nothing is executed: in every reachable state with the switch off, no
+operation other than `enable(True)` logs an execution (and the switch stays off). -/
+theorem disabled_executes_nothing (env : Env) (now : Int) (en : Bool) (ops : List Op) (op : Op) :
+    let s := runOps (initSt env now en) ops
+    s.enabled = false → op ≠ .enable true →
+    let s' := (step s op).1
+    C01.Exhausted s ∨ ((∃ l, Appended s s' l ∧ ∀ j t due, Ev.exec j t due ∉ l) ∧ s'.enabled = false) := by
+  intro s hd hop s'
+  have hI : Inv s := inv_reachable env now en ops
+  have hg : Good s := C01.good_reachable env now en ops
+  rcases step_quiet_disabled s op hI hg hd hop with hf | ⟨⟨l, hl, hp⟩, he⟩
+  · exact Or.inl (C01.exhausted_of_hasFatal hf)
+  · exact Or.inr ⟨⟨l, hl, fun j t due hm => hp _ hm⟩, he⟩
+
+/-- Operations on one job neither suppress nor re-time another: after any control operation on job `j`
+(cancel, pause, stop, resume, reset, set_countdown, callback registration), every other queued job `i` is still
+queued for the same instant — or it was executed by that operation, which happens only when it was already due. -/
+theorem control_leaves_other_jobs (env : Env) (now : Int) (en : Bool) (ops : List Op) (op : Op) (j i : Nat)
+    (t : Int) (htg : op.target = some j) (hne : i ≠ j) :
+    let s := runOps (initSt env now en) ops
+    i ∈ s.queue → s.nr i = some t →
+    let s' := (step s op).1
+    (i ∈ s'.queue ∧ s'.nr i = some t) ∨ (t ≤ s.now ∧ ∃ l, Appended s s' l ∧ Ev.exec i s.now t ∈ l) := by
+  intro s hm ht s'
+  have hI : Inv s := inv_reachable env now en ops
+  rcases control_keep s op j i htg hne hI t hm ht with ⟨l, hl, hin⟩ | hr
+  · right
+    have hI' : Inv s' := step_inv s op hI
+    have : evOK (Ev.exec i s.now t) := hI'.log _ (by rw [hl]; exact List.mem_append_left _ hin)
+    exact ⟨this, l, hl, hin⟩
+  · exact Or.inl hr
+
+-- non-vacuity: a paused job stays unexecuted over a sleep; a disabled scheduler with a due job
+#guard (runOps (initSt {} 0) [.create 1 none (.countdown 5) [] [], .reset 1, .stop 1, .sleep 10]).log.all
+  fun e => match e with | .exec _ _ _ => false | _ => true
+#guard (runOps (initSt {} 0 false) [.create 1 none (.once 5) [] [], .sleep 10]).queue == [1]
 
 end Ea.C02
